@@ -93,14 +93,17 @@ STRUCT_HEADER = ("From AM.Model Require Import Base Path Targets Deb822 Select K
 STRUCT_DEFS = """
 Definition mkc n s ar := {| cname := n; csrc := s; carches := ar |}.
 (* Some b: the names satisfy names_okb and the structural predicate says b; None: outside the hypothesis *)
-Definition m_struct (x : list component * string * kind * string) : option bool :=
-  match x with (cfg, c, k, e) => if names_okb cfg c k then Some (allowed_struct cfg c k) else None end.
+Definition m_struct (x : list component * (string * string) * kind * string) : option bool :=
+  match x with (cfg, (c1, c2), k, e) =>
+    if String.eqb c2 "" then (if names_okb cfg c1 k then Some (allowed_struct cfg c1 k) else None)
+    else (if names_okb_nested cfg c1 c2 k then Some (allowed_struct cfg (nested_comp c1 c2) k) else None)
+  end.
 Definition eq_struct (m o : option bool) : bool :=
   match m, o with Some a, Some b => Bool.eqb a b | None, _ => true | Some _, None => false end.
-Definition count_ok (l : list (list component * string * kind * string)) : nat :=
+Definition count_ok (l : list (list component * (string * string) * kind * string)) : nat :=
   List.length (filter (fun x => match m_struct x with Some _ => true | None => false end) l).
 """
-NAME_POOL = ["main", "universe", "multiverse", "restricted", "contrib", "nonfree", "extra", "x", "ports", "backports2",
+NAME_POOL = ["main", "non-free", "non-free-firmware", "debian-installer", "installer", "universe", "multiverse", "restricted", "contrib", "nonfree", "extra", "x", "ports", "backports2",
              "amd64", "i386", "arm64", "armhf", "armel", "s390x", "riscv64", "ppc64el", "mips64el", "loong64", "sparc64",
              "arm", "all", "allwinner", "source", "sources", "binary", "ackages", "ml", "z", "q7", "tar", "en", "ptbr", "64x64", "128"]
 KIND_COQ = {"Packages": "KPackages", "BinRelease": "KBinRelease", "Sources": "KSources", "SrcRelease": "KSrcRelease",
@@ -115,8 +118,10 @@ def run_struct(rep, rng, n):
     for _ in range(n):
         arch_pool = rng.sample(NAME_POOL, rng.randint(2, 4))
         comp_names = rng.sample(NAME_POOL, rng.randint(1, 3))
+        if rng.random() < 0.35:
+            comp_names.append(rng.choice(NAME_POOL) + "/" + rng.choice(NAME_POOL))
         cfg = {cn: (rng.random() < 0.5, rng.sample(arch_pool, rng.randint(0, min(2, len(arch_pool))))) for cn in comp_names}
-        c = rng.choice(comp_names + [rng.choice(NAME_POOL)])
+        c = rng.choice(comp_names + [rng.choice(NAME_POOL), rng.choice(NAME_POOL) + "/" + rng.choice(NAME_POOL)])
         kname = rng.choice(list(KIND_COQ))
         arg = None
         if kname in ("Packages", "BinRelease", "Contents", "Dep11", "Cnf"):
@@ -130,7 +135,8 @@ def run_struct(rep, rng, n):
         except Exception:  # noqa: BLE001
             continue
         kc = f"({KIND_COQ[kname]} {cstr(arg)})" if arg is not None else KIND_COQ[kname]
-        cin = ctuple(S.c_cfg(cfg), cstr(c), kc, cstr(e))
+        c1, _, c2 = c.partition("/")
+        cin = ctuple(S.c_cfg(cfg), ctuple(cstr(c1), cstr(c2)), kc, cstr(e))
         rows.append(({"cfg": {k_: [v[0], v[1]] for k_, v in cfg.items()}, "comp": c, "kind": [kname, arg], "ext": e, "name": name},
                      cin, f"(Some {cbool(got)})"))
         rep.case(("struct", kname, got, len(cfg)), sample={"name": name, "allowed": got})
